@@ -264,7 +264,14 @@ func (p Profile) genStep(t *rapid.T, conns int, table []Op) Step {
 	case OpSilence:
 		st.Count = uint32(pick(t, "silence_frames", []int{1, 3, 10, 30, 70, 140}))
 	}
-	if p.Hostile && (st.Op == OpQuad || st.Op == OpGround || st.Op == OpRegion) && uni(t, "hostile_floats", 2) == 0 {
+	if p.Hostile && (st.Op == OpGround || st.Op == OpRegion) && len(st.F) >= 6 && uni(t, "overflowing_difference", 6) == 0 {
+		// both end points finite, their difference is not representable
+		ax := pick(t, "axis", []int{0, 2})
+		st.F[ax], st.F[ax+3] = math.Float32bits(3e38), math.Float32bits(-3e38)
+		if uni(t, "flip", 2) == 0 {
+			st.F[ax], st.F[ax+3] = st.F[ax+3], st.F[ax]
+		}
+	} else if p.Hostile && (st.Op == OpQuad || st.Op == OpGround || st.Op == OpRegion) && uni(t, "hostile_floats", 2) == 0 {
 		all := uni(t, "hf_all", 2) == 0
 		for i := range st.F {
 			if all || uni(t, "hf_which", 3) == 0 {
